@@ -20,7 +20,7 @@ PLAN  = {"quick":    {"shards": 8, "parallel": 5, "cases": 120,  "timeout": 900}
 REQUIRED = ["oracle.exactly-once", "oracle.pid-quota", "oracle.exception-contract", "oracle.abandon", "observed.restarts",
             "observed.multi-worker-runs", "perturb.line-events", "oracle.reuse-same-object"]
 ASSUMPTIONS = ["outputs are never None (None is the documented poison pill)",
-               "CobaMultiprocessor deliberately turns RuntimeError into coba_exit (spawn bootstrapping guard): RuntimeError is only raised through the plain Multiprocessor", "order of outputs is not asserted (multiset)",
+               "CobaMultiprocessor deliberately turns the RuntimeError family into coba_exit (spawn bootstrapping guard): through it such an exception may reach the caller as CobaExit carrying the message", "order of outputs is not asserted (multiset)",
                "a hang is a violation only when the logical deadlock state is established (all workers dead, loader and callback "
                "threads finished, consumer blocked in queue.get); any other watchdog firing is inconclusive",
                "INSTRUCTION-level yields inside the two completion closures emulate the pre-3.10 evaluation loop (coba declares "
@@ -73,7 +73,7 @@ def gen_case(rng, idx=0):
     none_items = [rng.choice([0, 0, items // 2, items - 1])] if (items > 0 and rng.random() < .2) else []     # one item is None
     return {"none_items": none_items, "reuse": reuse, "finish_during_replacement": fdr, "tail_delay_ms": tail, "n": n, "m": m, "n_items": items, "items_class": base, "via": via, "mode": mode, "pattern": pat, "kmap": kmap,
             "raising_kind": rkind, "raising": raising, "abandon": abandon, "perturb": perturb, "perturb_seed": rng.randrange(1 << 30),
-            "worker_jitter_ms": wj, "loader_jitter_ms": lj, "consumer_jitter_ms": cj, "watchdog_s": 45, "exc_type": rng.choice(["ValueError", "KeyError", "InjectedFailure", "AssertionError", "EOFError", "TypeError"] if via == "coba" else ["ValueError", "KeyError", "RuntimeError", "InjectedFailure", "AssertionError", "EOFError", "TypeError"])}
+            "worker_jitter_ms": wj, "loader_jitter_ms": lj, "consumer_jitter_ms": cj, "watchdog_s": 45, "exc_type": rng.choice(["ValueError", "KeyError", "InjectedFailure", "AssertionError", "EOFError", "TypeError", "RuntimeError", "NotImplementedError", "RecursionError", "OSError", "LookupError"])}   # (StopIteration is excluded: Python itself turns it into RuntimeError inside generators, PEP 479)
 
 def run_case(spec, workdir):
     side = os.path.join(workdir, "side.log")
@@ -155,6 +155,10 @@ def judge(spec, res, processed):
         ok_type = spec.get("exc_type", "ValueError")
         if r is None:
             v.append((f"exception-swallowed/{feat}", f"filter raises for items {spec['raising'][:5]} but the call returned normally with {len(got)} outputs"))
+        elif spec["via"] == "coba" and ok_type in ("RuntimeError", "NotImplementedError", "RecursionError"):
+            # CobaMultiprocessor turns the RuntimeError family into coba_exit(message): either form reaches the caller
+            if r["type"] not in (ok_type, "CobaExit") or not any(m in r["msg"] for m in ok_msgs):
+                v.append((f"wrong-exception/{feat}", f"expected {ok_type}(boom-<uid>) or CobaExit(boom-<uid>) got {r}"))
         elif r["type"] != ok_type or r["msg"].strip("'\"") not in ok_msgs:
             v.append((f"wrong-exception/{feat}", f"expected {ok_type}(boom-<uid>) got {r}"))
     elif spec["abandon"] is not None:
